@@ -1200,12 +1200,15 @@ def f_gather_scatter(c):
         f.ensures = [e for e in k.ensures if 'untouched unless addressed' not in e[0]]
         f.part = 'far indices: object of up to 2^%d elements' % (33 if it.bits == 64 else 31)
         f.far_W = W
+        f.gs = dict(k.gs, far=True)
         k.far = f
 
     if c.name == 'gather':
         ens = [('gather lane %d' % i, '%s == (%s ? %s : 0)' % (t.lane(RV, i), act(i), bits_of(ect, '%s[%s]' % (p, sidx(i))))) for i in range(W)]
         k = Contract('mem_gather' + ('_n' if len(P) == 3 else '_N'), ['C08', 'C09'], requires=req, ensures=ens, assigns=[], cxx=None)
         k.harness = {'pre': pre + ['%s a1;' % it.ct], 'args': args}
+        k.gs = {'kind': 'gather', 'elem': ect, 'W': W, 'ibits': it.bits, 'it': it.ct, 'vt': t.ct, 'far': False, 'call': cxx,
+                'N': (None if len(P) == 3 else int(nn[:-1]))}
         far_twin(k)
         return k
     # scatter: active indices pairwise distinct (the property is silent about duplicates).  From 8 lanes on the 28+ pairwise
@@ -1229,6 +1232,8 @@ def f_gather_scatter(c):
                  assigns=['__CPROVER_object_whole(%s)' % p], cxx=None)
     k.harness = {'pre': pre + ['%s a1;' % t.ct, '%s a2;' % it.ct], 'args': args}
     k.partial = partial
+    k.gs = {'kind': 'scatter', 'elem': ect, 'W': W, 'ibits': it.bits, 'it': it.ct, 'vt': t.ct, 'far': False, 'call': cxx,
+            'N': (None if len(P) == 4 else int(nn[:-1]))}
     far_twin(k)
     return k
 
